@@ -14,7 +14,7 @@ NF = 3
 def all_cases(tier):
     out = []
     for ep, nb, vb, ev, cb, init in itertools.product((0, 1, 2, 3), (1, 2, 3), (None, 1, 2), (None, "binary", "multi-class", "categorical"),
-                                                       (False, True, "flip"), ("train", "eval")):
+                                                       (False, True, "flip"), ("train", "eval", "train+bn_eval", "eval+dropout_train")):
         out.append({"epochs": ep, "train_batches": nb, "val_batches": vb, "evaluator": ev, "callbacks": cb, "initial_mode": init})
     return out
 
@@ -96,7 +96,9 @@ def judge(case):
                "on_validation_epoch": lambda m, l: (trace.append(("cb_val",)), m.train())}
     elif case["callbacks"]:
         cbs = {"on_train_epoch": lambda m, l: trace.append(("cb_train",)), "on_validation_epoch": lambda m, l: trace.append(("cb_val",))}
-    model.train() if case["initial_mode"] == "train" else model.eval()
+    model.train() if case["initial_mode"].startswith("train") else model.eval()
+    if case["initial_mode"] == "train+bn_eval": model.bn.eval()            # a submodule switched individually (frozen backbone)
+    if case["initial_mode"] == "eval+dropout_train": model.do.train()
     sg.Tensor.backward = backward
     try:
         try:
@@ -221,7 +223,7 @@ def run(tier, seed):
     cov = {"states": r["evaluations"], "transitions": ntrans, "traces_validated_against_impl": r["evaluations"],
            "evaluations": r["evaluations"], "distinct_nontrivial": r["distinct_nontrivial"], "samples": r["samples"], "exhaustive": True,
            "rule": "epochs {0,1,2,3} x train batches {1,2,3} x validation loader {None,1,2 batches} x evaluator {None, binary, multi-class, "
-                   "categorical} (matching head/loss) x callbacks {none, both, both and leaving the model in the opposite mode} x initial model mode {train, eval}; model = Linear+BatchNorm1d+"
+                   "categorical} (matching head/loss) x callbacks {none, both, both and leaving the model in the opposite mode} x initial model mode {train, eval, train with BatchNorm switched to eval, eval with Dropout switched to train}; model = Linear+BatchNorm1d+"
                    "Dropout+Linear; every optimizer.zero_grad/step, model.forward, criterion and backward call is recorded with model.training "
                    "(all submodules) and the probed grad mode and matched against the automaton (forward, loss, zero_grad, backward, step)* "
                    "per batch, eval/no-grad/no-state-change validation, history keys and lengths, epoch loss = mean of batch losses, accuracy "
